@@ -287,11 +287,51 @@ def generate(repo: Path | None = None):
     return t
 
 
+PINNED = Path(__file__).resolve().parent / "stepsize_pinned.json"
+
+
+def _flat(t):
+    """tables as {row key: value} for comparison"""
+    import json as _json
+
+    out = {}
+    for k, v in t.items():
+        if k == "skeletons":
+            for name, lines in v:
+                out["skeleton:" + name] = _json.dumps(lines)
+        elif k == "signatures":
+            for name, sig in v:
+                out["signature:" + name] = _json.dumps(sig)
+        elif k == "classes":
+            for row in v:
+                out["class:" + row[0]] = _json.dumps(row)
+        else:
+            out[k] = _json.dumps(v, default=str)
+    return out
+
+
+def write_pinned(repo=None):
+    """snapshot of the tables the model file was refreshed from (written together with `--model`)"""
+    import json as _json
+
+    PINNED.write_text(_json.dumps(_flat(read_tables(repo)), indent=0, sort_keys=True))
+
+
+def changed_keys(repo=None):
+    """rows of the current source tables that differ from the pinned snapshot (= from the model's tables)"""
+    import json as _json
+
+    cur = _flat(read_tables(repo))
+    old = _json.loads(PINNED.read_text()) if PINNED.exists() else {}
+    return sorted(k for k in set(cur) | set(old) if cur.get(k) != old.get(k))
+
+
 if __name__ == "__main__":
     import sys
 
     if "--model" in sys.argv:
         print(render_model(read_tables()))
+        write_pinned()
     else:
         import json
 
